@@ -1,0 +1,157 @@
+//! Verification hooks. This module only exists when the crate is compiled
+//! with `--cfg falcon_rust_verif`; without that flag none of this code is
+//! built and the library behaves exactly as shipped.
+//!
+//! The hooks give a deterministic simulator three things:
+//!  - a seam behind the ambient entropy (`thread_rng`) used by `sign`, and a
+//!    tracer around the seed-expanded stream used by key generation;
+//!  - cooperative fault points ("buggify") and probes at rare branches;
+//!  - read-only access to the crate-private integer Gaussian sampler.
+//!
+//! With no source / observer installed on the current thread every hook is
+//! the identity (entropy comes from the wrapped generator, `buggify` is
+//! `false`, probes do nothing).
+use rand::RngCore;
+use std::cell::RefCell;
+
+/// Callbacks the simulator can install per thread.
+pub trait Observer {
+    /// Cooperative fault point; returning `true` makes the site take its
+    /// unusual-but-legal branch.
+    fn buggify(&mut self, _site: &'static str) -> bool {
+        false
+    }
+    /// A rare branch was reached.
+    fn probe(&mut self, _site: &'static str) {}
+    /// `sampler_z` was entered with these parameters.
+    fn sampler_entry(&mut self, _mu: f64, _sigma: f64, _sigma_min: f64) {}
+    /// Key generation drew `bytes` bytes from its seed-expanded stream.
+    fn seed_stream_draw(&mut self, _bytes: usize) {}
+}
+
+thread_local! {
+    static SOURCE: RefCell<Option<Box<dyn RngCore>>> = RefCell::new(None);
+    static OBSERVER: RefCell<Option<Box<dyn Observer>>> = RefCell::new(None);
+}
+
+/// Install (or remove) the entropy source that replaces `thread_rng` on the
+/// current thread. Returns the previous one.
+pub fn set_entropy(src: Option<Box<dyn RngCore>>) -> Option<Box<dyn RngCore>> {
+    SOURCE.with(|s| std::mem::replace(&mut *s.borrow_mut(), src))
+}
+
+/// Install (or remove) the observer of the current thread. Returns the
+/// previous one.
+pub fn set_observer(obs: Option<Box<dyn Observer>>) -> Option<Box<dyn Observer>> {
+    OBSERVER.with(|s| std::mem::replace(&mut *s.borrow_mut(), obs))
+}
+
+pub(crate) fn buggify(site: &'static str) -> bool {
+    OBSERVER.with(|s| match s.borrow_mut().as_mut() {
+        Some(o) => o.buggify(site),
+        None => false,
+    })
+}
+
+pub(crate) fn probe(site: &'static str) {
+    OBSERVER.with(|s| {
+        if let Some(o) = s.borrow_mut().as_mut() {
+            o.probe(site)
+        }
+    })
+}
+
+pub(crate) fn sampler_entry(mu: f64, sigma: f64, sigma_min: f64) {
+    OBSERVER.with(|s| {
+        if let Some(o) = s.borrow_mut().as_mut() {
+            o.sampler_entry(mu, sigma, sigma_min)
+        }
+    })
+}
+
+/// Wrapper around whatever generator `sign` would use; forwards to the
+/// installed source if there is one, to the wrapped generator otherwise.
+pub struct Ambient<R: RngCore> {
+    fallback: R,
+}
+
+pub(crate) fn ambient_entropy<R: RngCore>(fallback: R) -> Ambient<R> {
+    Ambient { fallback }
+}
+
+impl<R: RngCore> RngCore for Ambient<R> {
+    fn next_u32(&mut self) -> u32 {
+        SOURCE.with(|s| match s.borrow_mut().as_mut() {
+            Some(x) => x.next_u32(),
+            None => self.fallback.next_u32(),
+        })
+    }
+    fn next_u64(&mut self) -> u64 {
+        SOURCE.with(|s| match s.borrow_mut().as_mut() {
+            Some(x) => x.next_u64(),
+            None => self.fallback.next_u64(),
+        })
+    }
+    fn fill_bytes(&mut self, dest: &mut [u8]) {
+        SOURCE.with(|s| match s.borrow_mut().as_mut() {
+            Some(x) => x.fill_bytes(dest),
+            None => self.fallback.fill_bytes(dest),
+        })
+    }
+    fn try_fill_bytes(&mut self, dest: &mut [u8]) -> Result<(), rand::Error> {
+        self.fill_bytes(dest);
+        Ok(())
+    }
+}
+
+/// Wrapper around the seed-expanded stream of key generation; values pass
+/// through unchanged, every draw is reported to the observer.
+pub struct Traced<R: RngCore> {
+    inner: R,
+}
+
+pub(crate) fn traced_stream<R: RngCore>(inner: R) -> Traced<R> {
+    Traced { inner }
+}
+
+fn report_draw(bytes: usize) {
+    OBSERVER.with(|s| {
+        if let Some(o) = s.borrow_mut().as_mut() {
+            o.seed_stream_draw(bytes)
+        }
+    })
+}
+
+impl<R: RngCore> RngCore for Traced<R> {
+    fn next_u32(&mut self) -> u32 {
+        report_draw(4);
+        self.inner.next_u32()
+    }
+    fn next_u64(&mut self) -> u64 {
+        report_draw(8);
+        self.inner.next_u64()
+    }
+    fn fill_bytes(&mut self, dest: &mut [u8]) {
+        report_draw(dest.len());
+        self.inner.fill_bytes(dest)
+    }
+    fn try_fill_bytes(&mut self, dest: &mut [u8]) -> Result<(), rand::Error> {
+        report_draw(dest.len());
+        self.inner.try_fill_bytes(dest)
+    }
+}
+
+/// Read-only access to the crate-private integer Gaussian sampler and its
+/// building blocks.
+pub fn sampler_z(mu: f64, sigma: f64, sigma_min: f64, rng: &mut dyn RngCore) -> i16 {
+    crate::samplerz::sampler_z(mu, sigma, sigma_min, rng)
+}
+pub fn base_sampler(bytes: [u8; 9]) -> i16 {
+    crate::samplerz::verif_base_sampler(bytes)
+}
+pub fn approx_exp(x: f64, ccs: f64) -> u64 {
+    crate::samplerz::verif_approx_exp(x, ccs)
+}
+pub fn ber_exp(x: f64, ccs: f64, random_bytes: [u8; 7]) -> bool {
+    crate::samplerz::verif_ber_exp(x, ccs, random_bytes)
+}
